@@ -454,6 +454,37 @@ fn build_artifact(kind: &str, aseed: u64, n: u32, root: &std::path::Path) -> Res
             let cmd = *rng.pick(&["v1/products/wow/versions", "v1/products/wow/cdns", "v1/summary", "v1/products/wow/bgdl"]);
             let resp = cascette_ribbit::tcp::v1::handle_v1_command(cmd, &state).map_err(|e| format!("handle_v1_command: {e}"))?;
             let bytes = resp.into_bytes();
+            // one instance in three: the same document in the shape the OFFICIAL service sends - disposition naming the
+            // endpoint class, followed by a detached base64 signature part - with LF or CRLF after the checksum
+            let bytes = if n % 3 == 1 {
+                let first = cascette_protocol::mime_parser::parse_v1_mime_response(&bytes).map_err(|e| format!("harness: the server's response does not parse: {e}"))?;
+                let data: String = first.data.clone();
+                let disp = if cmd.ends_with("cdns") { "cdns" } else if cmd.ends_with("bgdl") { "bgdl" } else if cmd.ends_with("summary") { "summary" } else { "version" };
+                let body = [
+                    "MIME-Version: 1.0\r\n",
+                    "Content-Type: multipart/alternative; boundary=\"OfficialBoundary7\"\r\n",
+                    "\r\n",
+                    "--OfficialBoundary7\r\n",
+                    "Content-Type: text/plain\r\n",
+                    &format!("Content-Disposition: {disp}\r\n"),
+                    "\r\n",
+                    data.as_str(),
+                    "\r\n",
+                    "--OfficialBoundary7\r\n",
+                    "Content-Type: application/octet-stream\r\n",
+                    "Content-Disposition: signature\r\n",
+                    "Content-Transfer-Encoding: base64\r\n",
+                    "\r\n",
+                    "MIIBygYJKoZIhvcNAQcCoIIBuzCCAbcCAQExDzANBglghkgBZQMEAgEFADALBgkq\r\nhkiG9w0BBwExggGSMIIBjgIBATBpMFQxCzAJBgNVBAYTAlVTMRswGQYDVQQKExJC\r\n",
+                    "\r\n",
+                    "--OfficialBoundary7--\r\n",
+                ]
+                .join("");
+                let digest = <sha2::Sha256 as sha2::Digest>::digest(body.as_bytes());
+                format!("{body}Checksum: {digest:x}{}", if n % 2 == 0 { "\r\n" } else { "\n" }).into_bytes()
+            } else {
+                bytes
+            };
             let orig = cascette_protocol::mime_parser::parse_v1_mime_response(&bytes).map_err(|e| format!("harness: the uncorrupted response does not parse: {e}"))?;
             if orig.checksum.is_none() {
                 return Err("harness: the server's v1 response carries no checksum".into());
@@ -572,7 +603,7 @@ impl Scenario for Corrupt {
         "one corruption of one artifact instance loaded by the real reader (or one cache operation in a put/corrupt/get sequence)"
     }
     fn rule(&self) -> &'static str {
-        "Per run one artifact instance is produced by the real writer (EncodingBuilder, ArchiveIndexBuilder, lru_file::serialize, UpdateEntry::new, ResidencyEntry::new, LocalHeader::new, whole .idx bucket files from IndexManager::save_all with 2-6 or (one in three) 21-64 pending update entries = 1-4 pages, whole residency files from ResidencyDb::save with 2-10 or 25-60 keys in a bucket, the Ribbit server's handle_v1_command with its SHA-256 Checksum epilogue) from seeded content, and then corrupted inside the region its checksum is defined over: EVERY single-bit flip (all positions when the region is <= 4 KiB, else a seeded 4 KiB window plus the first/last 64 bytes of each range), 0x00/0xFF/random byte substitutions, truncation at every length, extensions for whole-file checksums. The real reader must refuse (Err / validator says invalid); Ok with different content is the violation; Ok with equal content is counted. Cache runs: seeded sequences of put_validated/put_with_validation, corrupt/delete the disk layer's file, get_validated/get_with_validation on ContentAddressedCache<DiskCache> and MultiLayerCacheImpl+Md5ValidationHooks: every Some(bytes) must hash to the requested key, and after a detected corruption the next read must not serve the entry. evaluations = corruptions + cache ops; distinct = hash of (kind, artifact bytes, verdict vector)."
+        "Per run one artifact instance is produced by the real writer (EncodingBuilder, ArchiveIndexBuilder, lru_file::serialize, UpdateEntry::new, ResidencyEntry::new, LocalHeader::new, whole .idx bucket files from IndexManager::save_all with 2-6 or (one in three) 21-64 pending update entries = 1-4 pages, whole residency files from ResidencyDb::save with 2-10 or 25-60 keys in a bucket, the Ribbit server's handle_v1_command with its SHA-256 Checksum epilogue - as the server frames it or, one instance in three, re-framed the way the official service does: endpoint-class disposition + detached signature part) from seeded content, and then corrupted inside the region its checksum is defined over: EVERY single-bit flip (all positions when the region is <= 4 KiB, else a seeded 4 KiB window plus the first/last 64 bytes of each range), 0x00/0xFF/random byte substitutions, truncation at every length, extensions for whole-file checksums. The real reader must refuse (Err / validator says invalid); Ok with different content is the violation; Ok with equal content is counted. Cache runs: seeded sequences of put_validated/put_with_validation, corrupt/delete the disk layer's file, get_validated/get_with_validation on ContentAddressedCache<DiskCache> and MultiLayerCacheImpl+Md5ValidationHooks: every Some(bytes) must hash to the requested key, and after a detected corruption the next read must not serve the entry. evaluations = corruptions + cache ops; distinct = hash of (kind, artifact bytes, verdict vector)."
     }
     fn assumptions(&self) -> Vec<&'static str> {
         vec![
